@@ -22,6 +22,10 @@ static std::string oracle(const Case& c) {
     }
     g_enable_called = true;
     polyseed_enable_features(7);   // known, non-default baseline: the case must not depend on what an earlier case left behind (and a call that fails to reset shows)
+    // optional burst: a probe, then so many enabling calls that - together with the case's own calls - exactly `burst` calls lie
+    // between that probe and the probes below (counters kept by an implementation wrap at powers of two)
+    if (c.u("burst")) { unsigned old = (unsigned)c.u("burstmask") & 7u; polyseed_enable_features(old); { polyseed_data* t = nullptr; k.rand_bytes.assign(19, 1); if (polyseed_create(old, &t) == 0) polyseed_free(t); }
+        uint64_t own = c.bytes("calls").size() / 4; if (own == 0) own = 1; for (uint64_t i = own; i < c.u("burst"); i++) polyseed_enable_features((unsigned)(i * 5 + old) & 7u); ev.count("burst-of-enabling-calls"); }
     std::string calls = c.bytes("calls"); unsigned m = 0; bool any = false;
     for (size_t i = 0; i + 4 <= calls.size(); i += 4) {
         unsigned arg = (uint8_t)calls[i] | ((uint8_t)calls[i + 1] << 8) | ((uint8_t)calls[i + 2] << 16) | ((unsigned)(uint8_t)calls[i + 3] << 24);
@@ -102,6 +106,10 @@ static void run() {
         set_current(c); std::string m = oracle(c); done++; if (!m.empty() && enum_fail(c, m)) return;
     }
     ev.enumerated["enable argument (27 values) x feature value (32) x create-argument high bits (2) x 2 languages, four entry points each"] += done;
+    { static const uint64_t bursts[] = {255, 256, 257, 65535, 65536, 65537, 131072, 1u << 20}; uint64_t bi = 0;
+      for (uint64_t b : bursts) for (unsigned oldm = 1; oldm < 8; oldm += 3) for (unsigned f = 0; f < 8; f += 1) { if ((int)(bi++ % (uint64_t)a.nworkers) != a.worker) continue;
+        Case c; c.set("calls", hex(le32s(oldm ^ 7u))); c.set("f", f); c.set("hi", 0); c.set("secret", hex(std::string(19, (char)(0x31 + f)))); c.set("birthday", (f * 77 + b) % 1024); c.set("coin", (f * 91) % 2048); c.set("lang", REG->at(f).name_en); c.set("badcheck", 0); c.set("burst", b); c.set("burstmask", oldm);
+        set_current(c); std::string m = oracle(c); if (!m.empty() && enum_fail(c, m)) return; } }
     rc_run("c10-histories", a.n(40000, 300000), 100, [&]() {
         int n = *in_range<int>(1, 7); std::string calls;
         for (int i = 0; i < n; i++) calls += le32s(*rc::gen::weightedOneOf<unsigned>({{5, in_range<unsigned>(0, 8)}, {1, rc::gen::map(vf::u64(), [](uint64_t x) { return (unsigned)x; })}, {1, rc::gen::map(in_range<unsigned>(0, 8), [](unsigned x) { return x | 0xFFFFFFF8u; })}}));
